@@ -291,15 +291,42 @@ def replay_assoc(vals, A, B):
     def d(i, j):
         return abs(f1[i] - (f2[j] + o))
 
+    # The don't-care band exists because binary64 rounds the offset addition and the differences.  When every
+    # operation evo can perform on this witness is exact (checked here in rational arithmetic for both orders of
+    # applying the offset), the real code decides the boundary cases exactly and so does this oracle: a pair at
+    # exactly max_diff, or max_diff == 0 with coinciding stamps, is then demanded like any other.
+    def _exact():
+        try:
+            for j in range(n2):
+                if Fraction(float(f2[j]) + off) != f2[j] + o:
+                    return False
+            for i in range(n1):
+                if Fraction(float(f1[i]) - off) != f1[i] - o:
+                    return False
+                for j in range(n2):
+                    if Fraction(abs((float(f2[j]) + off) - float(f1[i]))) != d(i, j):
+                        return False
+                    if Fraction(abs((float(f1[i]) - off) - float(f2[j]))) != d(i, j):
+                        return False
+            return True
+        except (OverflowError, ValueError):
+            return False
+    exact = _exact()
+
+    class common_:        # band() of this oracle: empty when the arithmetic is exact
+        @staticmethod
+        def band(x, scale=1.0):
+            return False if exact else common.band(x, scale)
+
     def must(i, j, a_short):
         if a_short:
-            return (all(d(i, j) < d(i, x) and not common.band(float(d(i, x) - d(i, j))) for x in range(n2) if x != j)
-                    and d(i, j) <= m and not common.band(float(m - d(i, j)))
-                    and all(any(d(ii, x) < d(ii, j) and not common.band(float(d(ii, j) - d(ii, x))) for x in range(n2))
+            return (all(d(i, j) < d(i, x) and not common_.band(float(d(i, x) - d(i, j))) for x in range(n2) if x != j)
+                    and d(i, j) <= m and not common_.band(float(m - d(i, j)))
+                    and all(any(d(ii, x) < d(ii, j) and not common_.band(float(d(ii, j) - d(ii, x))) for x in range(n2))
                             for ii in range(n1) if ii != i))
-        return (all(d(i, j) < d(x, j) and not common.band(float(d(x, j) - d(i, j))) for x in range(n1) if x != i)
-                and d(i, j) <= m and not common.band(float(m - d(i, j)))
-                and all(any(d(x, jj) < d(i, jj) and not common.band(float(d(i, jj) - d(x, jj))) for x in range(n1))
+        return (all(d(i, j) < d(x, j) and not common_.band(float(d(x, j) - d(i, j))) for x in range(n1) if x != i)
+                and d(i, j) <= m and not common_.band(float(m - d(i, j)))
+                and all(any(d(x, jj) < d(i, jj) and not common_.band(float(d(i, jj) - d(x, jj))) for x in range(n1))
                         for jj in range(n2) if jj != j))
 
     musts = []
@@ -340,7 +367,7 @@ def replay_assoc(vals, A, B):
                     continue
                 i, j = ii[0], jj[0]
                 pairs.append((i, j))
-                if d(i, j) > m and not common.band(float(d(i, j) - m)):
+                if d(i, j) > m and not common_.band(float(d(i, j) - m)):
                     bad.append("pair (%d,%d): |dt|=%s > max_diff" % (i, j, float(d(i, j))))
                 if n1 < n2:
                     nn = [d(i, x) for x in range(n2)]
@@ -348,11 +375,11 @@ def replay_assoc(vals, A, B):
                     nn = [d(x, j) for x in range(n1)]
                 else:
                     nn = None
-                if nn is not None and any(x < d(i, j) and not common.band(float(d(i, j) - x)) for x in nn):
+                if nn is not None and any(x < d(i, j) and not common_.band(float(d(i, j) - x)) for x in nn):
                     bad.append("pair (%d,%d) is not a nearest-counterpart pair" % (i, j))
                 if nn is None:
-                    na = any(x < d(i, j) and not common.band(float(d(i, j) - x)) for x in [d(i, x) for x in range(n2)])
-                    nb = any(x < d(i, j) and not common.band(float(d(i, j) - x)) for x in [d(x, j) for x in range(n1)])
+                    na = any(x < d(i, j) and not common_.band(float(d(i, j) - x)) for x in [d(i, x) for x in range(n2)])
+                    nb = any(x < d(i, j) and not common_.band(float(d(i, j) - x)) for x in [d(x, j) for x in range(n1)])
                     if na and nb:
                         bad.append("pair (%d,%d) is not a nearest-counterpart pair" % (i, j))
             if len({p[0] for p in pairs}) != len(pairs) or len({p[1] for p in pairs}) != len(pairs):
